@@ -102,6 +102,52 @@ def _target_elem(root, target):
     return None
 
 
+def _soap_wrap(root, mut, r):
+    """Signature wrapping inside a SOAP envelope: the genuine, signed message is parked in soapenv:Header and the
+    Body carries a message of the sender's making - a copy with altered content that keeps the ds:Signature
+    element (whose Reference still points at the genuine one).  `ids`: "other" gives the Body message an ID of
+    its own, "same" keeps the ID (two elements with one ID in the envelope); `sig`: "moved" takes the signature out
+    of the parked original, "copied" leaves it there as well."""
+    import copy as _copy
+    if root.tag != wire.q(wire.SOAPENV, "Envelope"):
+        return None, "not-soap"
+    body = root.find(wire.q(wire.SOAPENV, "Body"))
+    if body is None or len(body) != 1 or _sig_of(body[0]) is None:
+        return None, "no-signature"
+    forged = body[0]
+    genuine = _copy.deepcopy(forged)
+    sigs = set()
+    for s_ in forged.iter(wire.q(wire.DS, "Signature")):
+        sigs.update(s_.iter())
+    cands = [e for e in forged.iter() if e not in sigs and (e.text or "").strip() and e is not forged
+             and not e.tag.endswith("}Issuer")]
+    if cands:
+        e = cands[r.randrange(len(cands))]
+        e.text = "forged-" + e.text
+        what = e.tag.rsplit("}", 1)[-1]
+    else:
+        forged.set("Consent", "urn:oasis:names:tc:SAML:2.0:consent:forged")
+        what = "@Consent"
+    ids = mut.get("ids", "other")
+    if ids == "other" and forged.get("ID"):
+        forged.set("ID", "id-wrapped%08x" % r.getrandbits(32))
+    header = root.find(wire.q(wire.SOAPENV, "Header"))
+    if header is None:
+        header = ET.Element(wire.q(wire.SOAPENV, "Header"))
+        if mut.get("place", "header") == "header":
+            root.insert(0, header)
+        else:
+            root.append(header)
+    if mut.get("sig", "moved") == "moved":
+        # the signature travels with the forged message only; its Reference resolves to the parked original, which
+        # without its enveloped signature digests to exactly what was signed
+        gs = _sig_of(genuine)
+        if gs is not None:
+            genuine.remove(gs)
+    header.append(genuine)
+    return ET.tostring(root, encoding="utf-8"), "soap-wrap:%s:%s:%s" % (ids, mut.get("sig", "moved"), what)
+
+
 def mutate_xml(xml, mut, r):
     """ET-level mutation of a decoded message.  -> (new xml bytes, description) or (None, why)."""
     try:
@@ -109,6 +155,8 @@ def mutate_xml(xml, mut, r):
     except ET.ParseError:
         return None, "unparseable"
     where = mut["where"]
+    if where == "soap-wrap":
+        return _soap_wrap(root, mut, r)
     target = _target_elem(root, mut.get("target", "response"))
     if target is None:
         return None, "no-target"
@@ -664,6 +712,7 @@ class FedSim(object):
         try:
             with w.on(idp.name):
                 ra = srv.response_args(req.message, [BINDING_SOAP])
+                rec["sp_entity"] = ra["sp_entity_id"]
                 nid = req.message.subject.name_id
                 d = p.get("dialect")
                 if d:
@@ -689,10 +738,17 @@ class FedSim(object):
                         resp = signed_instance_factory(resp, srv.sec, to_sign)
                     self.count("dialect.attribute-response")
                 else:
+                    xkw = {}
+                    if p.get("encrypt"):
+                        # the attribute authority is asked to encrypt the assertion for the querying SP
+                        xkw["encrypt_assertion"] = True
+                        if p.get("self_contained"):
+                            xkw["encrypt_assertion_self_contained"] = True
+                        self.count("aq_answer.encrypt-asked")
                     resp = srv.create_attribute_response(
                         identity, ra["in_response_to"], "", ra["sp_entity_id"], name_id=nid,
                         sign_assertion=bool(p.get("sign_assertion")), sign_response=bool(p.get("sign_response")),
-                        sign_alg=p.get("sigalg"), digest_alg=p.get("digalg"))
+                        sign_alg=p.get("sigalg"), digest_alg=p.get("digalg"), **xkw)
                 http = srv.apply_binding(BINDING_SOAP, "%s" % resp, "", "", response=True)
         except Exception as e:
             rec["error"] = type(e).__name__
@@ -755,7 +811,8 @@ class FedSim(object):
         """The spec of the SP with that entity id as the IdP node knows it (its metadata view)."""
         for v in idp.peer_view.values():
             if v.get("kind") == "sp" and fed.sp_entity(v) == sp_entity_id:
-                return {"req_attrs": v.get("req_attrs"), "opt_attrs": v.get("opt_attrs")}
+                return {"req_attrs": v.get("req_attrs"), "opt_attrs": v.get("opt_attrs"),
+                        "entity_category": v.get("entity_category")}
         return None
 
     def make_response(self, ev, fl, idp, ra, rec):
@@ -770,6 +827,10 @@ class FedSim(object):
         pol_conf = {"default": {"lifetime": {"seconds": lifetime}, "attribute_restrictions": None,
                                 "name_form": NAME_FORMAT_URI,
                                 "nameid_format": p.get("nameid_format") or saml.NAMEID_FORMAT_TRANSIENT}}
+        if p.get("entity_categories"):
+            # the IdP releases by entity category (policy option entity_categories names the category profiles)
+            pol_conf["default"]["entity_categories"] = list(p["entity_categories"])
+            self.count("probe.entity-category-policy")
         if p.get("sp_policy_section") and ra.get("sp_entity_id"):
             # a section of its own for this SP that sets one option only: everything else comes from "default"
             pol_conf[ra["sp_entity_id"]] = {"nameid_format": pol_conf["default"]["nameid_format"]}
@@ -824,7 +885,8 @@ class FedSim(object):
             rec["error"] = type(e).__name__
             rec["error_msg"] = str(e)[:200]
             rec["tool"] = self.tool_slice(n0)
-            rec["refusal_expected"] = fed.expected_release(identity, self.sp_view(idp, ra.get("sp_entity_id")) or {})[2]
+            rec["refusal_expected"] = fed.expected_release(identity, self.sp_view(idp, ra.get("sp_entity_id")) or {},
+                                                               p.get("entity_categories"))[2]
             self.count("answer.error." + type(e).__name__)
             if not ev.get("tf") and not p.get("handover") and not ev.get("_benign"):
                 # differential probe: does the same request succeed with bland content?  Then the failure
